@@ -167,6 +167,26 @@ namespace hgraph
             return TSEndpointSchema::non_peered(schema, std::move(children));
         }
 
+        void bind_inputs(const SingleNestedGraphNodeView &nested, DateTime evaluation_time, bool sampled)
+        {
+            const auto &bindings = nested.context().spec.input_bindings;
+            if (bindings.empty()) { return; }
+
+            auto root_input = nested.node().input(evaluation_time);
+            auto child_graph = nested.child_graph();
+
+            for (const NestedGraphInputBinding &binding : bindings)
+            {
+                auto source_output = walk_source_to_output(root_input.borrowed_ref(), binding.source_path);
+
+                auto target = walk_ts_path(
+                    child_graph.node_at(binding.target.node).input(evaluation_time),
+                    binding.target.path);
+                if (sampled) { bind_sampled_input_to_source(std::move(target), source_output, evaluation_time); }
+                else { bind_input_to_source(std::move(target), source_output); }
+            }
+        }
+
         bool single_nested_graph_evaluate_impl(const void *, const NodeView &view, DateTime evaluation_time)
         {
             return single_nested_graph_evaluate(view, evaluation_time);
@@ -304,15 +324,25 @@ namespace hgraph
     {
         auto nested = checked_nested_view(view);
         nested.ensure_child_graph();
-        single_nested_graph_bind_inputs(nested, evaluation_time);
+        // A nested node that comes to life while the program runs (inside a switch_ branch, a map_
+        // instance, ...) is a lifecycle transition for its child: the boundary inputs are bound SAMPLED,
+        // exactly as the enclosing construct binds the same body when it is wired inline, so the child
+        // reads them as modified in the activation cycle.  During whole-program start nothing is sampled.
+        const bool started_mid_run = !view.graph().root().is_starting();
+        bind_inputs(nested, evaluation_time, started_mid_run);
         single_nested_graph_bind_output(nested, evaluation_time);
         if (nested.context().options.start_child_on_start)
         {
             nested.child_graph().start(evaluation_time);
-            schedule_sampled_input_consumers(
-                nested.child_graph(),
-                evaluation_time,
-                nested.context().spec.input_bindings);
+            // ... and only then are the boundary consumers sampled: the same nodes wired inline are not
+            // scheduled by the whole-program start either.
+            if (started_mid_run)
+            {
+                schedule_sampled_input_consumers(
+                    nested.child_graph(),
+                    evaluation_time,
+                    nested.context().spec.input_bindings);
+            }
         }
         single_nested_graph_propagate_schedule(nested);
     }
@@ -349,21 +379,7 @@ namespace hgraph
     void single_nested_graph_bind_inputs(const SingleNestedGraphNodeView &nested,
                                          DateTime evaluation_time)
     {
-        const auto &bindings = nested.context().spec.input_bindings;
-        if (bindings.empty()) { return; }
-
-        auto root_input = nested.node().input(evaluation_time);
-        auto child_graph = nested.child_graph();
-
-        for (const NestedGraphInputBinding &binding : bindings)
-        {
-            auto source_output = walk_source_to_output(root_input.borrowed_ref(), binding.source_path);
-
-            auto target = walk_ts_path(
-                child_graph.node_at(binding.target.node).input(evaluation_time),
-                binding.target.path);
-            bind_input_to_source(std::move(target), source_output);
-        }
+        bind_inputs(nested, evaluation_time, false);
     }
 
     void single_nested_graph_bind_output(const SingleNestedGraphNodeView &nested,
